@@ -147,6 +147,22 @@ def walk_role(t):
         return "io_new"
     if c.endswith("MatcherIO::<'_>::exit_code"):
         return "exit_code"
+    if n == "take" and "entry::WalkEntry>" in inst and inst.startswith("std::option::Option"):
+        return "deferred_take"          # an entry that was held back (starting point under -depth) is fetched
+    return None
+
+
+def walk_stmt_role(fn, bb, s):
+    """`slot = Some(entry)`: an entry is held back instead of being evaluated now"""
+    if s.lhs is None or not s.lhs.is_local() or fn.local_name(s.lhs.local) is None or s.rv is None or not fn.local_ty(s.lhs.local).endswith("entry::WalkEntry>"):
+        return None
+    rv = s.rv
+    if rv.k == "agg" and rv.j.get("adt") == "std::option::Option" and rv.j.get("variant") == "Some":
+        return "stash"
+    if rv.k == "use" and rv.ops and rv.ops[0].place is not None:
+        o = prim.origin_of_operand(fn, rv.ops[0]).strip()
+        if o.k == "agg" and str(o.a).endswith("Option::Some"):
+            return "stash"
     return None
 
 
@@ -171,7 +187,7 @@ def walk_graph(ctx, rule):
     if f is None:
         ctx._walk_graph = (None, None)
         return ctx._walk_graph
-    g = prim.event_graph(f, walk_role, branch_role=walk_branch_role)
+    g = prim.event_graph(f, walk_role, branch_role=walk_branch_role, stmt_role=walk_stmt_role)
     ctx._walk_graph = (f, g)
     return ctx._walk_graph
 
@@ -249,3 +265,62 @@ def import_rules(ctx, prop, rules, as_rule, key_prefix=None):
     if n == 0:
         ctx.ob(as_rule, "imported:%s" % ",".join(sorted(want)), False, "no obligations produced by %s (fail closed)" % sorted(want))
     return n
+
+
+# ---------------------------------------------------------------------------------------------
+# role-based lookup of user variables (a renamed local must not raise an alarm)
+# ---------------------------------------------------------------------------------------------
+
+def find_local(fn, name, ty=None, pred=None):
+    """indices of the user local called `name`; when no local has that name, the user locals selected by role:
+    exact/suffix type `ty` and/or predicate pred(fn, local). Returns [] when the role is ambiguous (> 1 candidates
+    unless the type makes them interchangeable for the caller)."""
+    ls = fn.locals_named(name)
+    if ls:
+        return ls
+    cands = []
+    for i, l in enumerate(fn.locals):
+        if l.get("name") is None or i <= fn.arg_count and False:
+            continue
+        t = l["ty"]
+        if ty is not None and not (t == ty or t.endswith(ty)):
+            continue
+        if pred is not None and not pred(fn, i):
+            continue
+        cands.append(i)
+    return cands if len(cands) == 1 else []
+
+
+def scan_index(fn, name="i"):
+    """the index variable of an argument-scanning loop: by name, else the usize user local that indexes a `&[&str]`
+    parameter most often"""
+    ls = fn.locals_named(name)
+    ls = [l for l in ls if fn.local_ty(l) == "usize"]
+    if ls:
+        return ls
+    cnt = {}
+    for b in fn.reachable():
+        for s in fn.blocks[b].stmts:
+            if s.rv is None:
+                continue
+            pls = [o.place for o in s.rv.ops if o.place is not None]
+            if s.rv.place is not None:
+                pls.append(s.rv.place)
+            for p in pls:
+                for e in p.proj:
+                    if isinstance(e, dict) and "idx" in e:
+                        # the index temp is a copy of a user local
+                        for d in prim.local_defs(fn).get(e["idx"], []):
+                            if d[1] == "assign" and d[2].rv is not None and d[2].rv.k == "use" and d[2].rv.ops[0].place is not None:
+                                src = d[2].rv.ops[0].place.local
+                                if fn.local_name(src) is not None and fn.local_ty(src) == "usize":
+                                    cnt[src] = cnt.get(src, 0) + 1
+    if not cnt:
+        return []
+    best = max(cnt.items(), key=lambda kv: kv[1])
+    return [best[0]]
+
+
+def bool_flag_with_both_constants(fn, l):
+    vals = {v for _, v in prim.const_assigns_to(fn, l)}
+    return fn.local_ty(l) == "bool" and vals == {True, False}
